@@ -28,6 +28,19 @@ check(
     "Trusts CPython str operations and that the scanner is a pure function of its argument; inputs longer than the generated sizes and alphabets outside the stated one are only sampled.",
 )
 
+check(
+    "C01",
+    "Hypothesis-generated interfaces x exhaustive 48-cell configuration matrix; inverse-pair oracle parse(emit(x)) == x under the documented normalisations",
+    "Generated-input search over the docstring-representable domain: each generated interface is emitted and re-parsed in every style/flag cell and compared clause by clause (names, order, type strings, defaults incl. Python type, descriptions, return entry, header, style detection). Sampling, not proof; open findings relax one clause of one narrow input class each.",
+    "Trusts the generator's vocabulary to be trigger-free as the property's quantifier demands; known_findings.json classes P21-P24, P40 are relaxed narrowly (see DESIGN 5).",
+)
+check(
+    "C02",
+    "Hypothesis-generated interfaces x exhaustive format/style/flag matrix; emit -> to_code -> re-read -> parse inverse-pair oracle plus compile()",
+    "Generated-input search over signature-legal interfaces pushed through class, pydantic, six function modes and argparse in three docstring styles; IR equality after re-parsing the re-read text under exactly the two normalisations the property names.",
+    "Code-quoted defaults are excluded by construction (finding P43); doc-derived clauses are relaxed where the embedded docstring is not recognised (P25, P41, P42) and argparse zero-value classes (P13).",
+)
+
 NOT_YET = "check not built yet in this round (work in progress; DESIGN.md section 4 has the plan)"
 
 
